@@ -145,9 +145,31 @@ func newDev(c *Ctx, rule string) *dev {
 		d.ok = false
 		return d
 	}
-	for i := 0; i < st.NumFields(); i++ {
-		d.fields[st.Field(i).Name()] = st.Field(i)
+	var allFields []*types.Var
+	var addFields func(s *types.Struct, depth int)
+	addFields = func(s *types.Struct, depth int) {
+		for i := 0; i < s.NumFields(); i++ {
+			f := s.Field(i)
+			if _, dup := d.fields[f.Name()]; !dup {
+				d.fields[f.Name()] = f
+				allFields = append(allFields, f)
+			}
+			// fields promoted from an embedded struct of the package (`type Device struct { keyboardState; ... }`) are fields
+			// of the device like any other: `d.octave` is `d.keyboardState.octave`
+			if f.Embedded() && depth < 3 {
+				t := f.Type()
+				if p, isPtr := t.(*types.Pointer); isPtr {
+					t = p.Elem()
+				}
+				if n, isNamed := t.(*types.Named); isNamed && n.Obj().Pkg() != nil && n.Obj().Pkg().Path() == pkgDevice {
+					if es, isStruct := n.Underlying().(*types.Struct); isStruct {
+						addFields(es, depth+1)
+					}
+				}
+			}
+		}
 	}
+	addFields(st, 0)
 	// anchors are looked up by the reference tree's field names; a field whose name only changed letter case or underscores
 	// is found under its reference name too
 	for _, ref := range deviceKnownFields {
@@ -156,9 +178,9 @@ func newDev(c *Ctx, rule string) *dev {
 		}
 		var found *types.Var
 		n := 0
-		for i := 0; i < st.NumFields(); i++ {
-			if sameAnchorName(st.Field(i).Name(), ref) {
-				found = st.Field(i)
+		for _, f := range allFields {
+			if sameAnchorName(f.Name(), ref) {
+				found = f
 				n++
 			}
 		}
